@@ -14,13 +14,98 @@ import random
 from . import ops as O
 from . import progen
 
-PATTERNS = ['t:Name', 't:Call', 't:Constant', 't:BinOp', 't:If', 't:Assign', 't:Attribute', 'wild', 'backref_binop',
+PATTERNS = ['or_backref_list', 'or_backref_binop', 'or_backref_assign', 'opt_backref_tuple', 'probe_tags', 't:Name', 't:Call', 't:Constant', 't:BinOp', 't:If', 't:Assign', 't:Attribute', 'wild', 'backref_binop',
             'call_args_star', 'list_first_rest', 'or_name_const', 'and_not', 'name_re', 'assign_backref', 'body_plus',
             'ng_star', 'mtypes', 'nested_tags', 'opt', 'compare_all', 'maybe', 'qn', 'static_tags', 'dict_all']
 
 
+class Boom(Exception):
+    """The injected fault: a user callback raising in the middle of a match."""
+
+
+# fault patterns: tags are captured first, then a callback runs (which raises on its k-th call = aborted match, or
+# performs matches of its own = re-entrant use); tag names deliberately collide with the back-references of PATTERNS
+ABORT_PATTERNS = {'abort_binop': (ast.BinOp,), 'abort_list': (ast.List, ast.Tuple, ast.Set), 'abort_assign': (ast.Assign,),
+                  'abort_call': (ast.Call,), 'abort_body': (ast.FunctionDef, ast.If, ast.For, ast.While, ast.With, ast.ClassDef),
+                  'abort_compare': (ast.Compare,)}
+REENTRANT_PATTERNS = {'reent_list': (ast.List, ast.Tuple, ast.Set), 'reent_binop': (ast.BinOp,), 'reent_assign': (ast.Assign,)}
+# back-references whose tag may stay unset on the path taken + a probe that can only match if some tag leaked
+LEAK_SENSITIVE = ['or_backref_list', 'or_backref_binop', 'or_backref_assign', 'opt_backref_tuple', 'probe_tags']
+
+
+def _inner_matches():
+    """Matches performed from inside a callback of an outer match (re-entrant use): complete ones and an aborted one."""
+    import fst
+    from fst import match as m
+    out = []
+    out.append(bool(fst.FST('x + x').match(m.MBinOp(left=m.M(left=...), right=m.MTAG('left')))))
+    out.append(len(list(fst.FST('[[y, y], [y, z]]').search(m.MList(elts=[m.M(first=...), m.MTAG('first')])))))
+    out.append(bool(fst.FST('q = q').match(m.MAssign(targets=[m.M(t=...)], value=m.MTAG('t')))))
+
+    def boom(t):
+        raise Boom()
+    try:
+        fst.FST('[q, r]').match(m.MList(elts=[m.M(first=...), m.MCB(boom)]))
+    except Boom:
+        out.append('boom')
+    return out
+
+
+def _seq(m, elts):
+    return m.MOR(m.MList(elts=elts), m.MTuple(elts=elts), m.MSet(elts=elts))
+
+
+def build_fault_pattern(name, k):
+    from fst import match as m
+    calls = [0]
+    if name.startswith('abort_'):
+        def cb(tgt):
+            calls[0] += 1
+            if calls[0] >= k:
+                raise Boom()
+            return True
+    else:
+        def cb(tgt):
+            calls[0] += 1
+            if calls[0] <= k:
+                _inner_matches()
+            return True
+    cb = m.MCB(cb)
+    return _fault_pattern(m, name, cb), calls
+
+
+def _fault_pattern(m, name, cb):
+    kind = name.split('_', 1)[1]
+    if kind == 'binop':
+        return m.MBinOp(left=m.M(left=...), right=m.MAND(cb, m.MTAG('left')) if name.startswith('reent') else cb)
+    if kind == 'list':
+        if name.startswith('reent'):
+            return _seq(m, [m.M(first=...), cb, m.MQSTAR(rest=m.MTAG('first'))])
+        return _seq(m, [m.M(first=...), m.MQSTAR.NG(pre=...), cb, m.MQSTAR(post=...)])
+    if kind == 'assign':
+        return m.MAssign(targets=[m.M(t=...)], value=m.MAND(cb, m.MTAG('t')) if name.startswith('reent') else cb)
+    if kind == 'call':
+        return m.MCall(func=m.M(f=...), args=[m.M(a=...), m.MQSTAR.NG(pre=...), cb, m.MQSTAR(post=...)])
+    if kind == 'body':
+        return m.Mstmt(body=[m.M(b=...), m.MQSTAR.NG(pre=...), cb, m.MQSTAR(post=...)])
+    if kind == 'compare':
+        return m.MCompare(left=m.M(l=...), comparators=[m.M(c=...), m.MQSTAR.NG(pre=...), cb, m.MQSTAR(post=...)])
+    raise KeyError(name)
+
+
 def build_pattern(name):
     from fst import match as m
+    if name == 'or_backref_list':
+        return m.MList(elts=[m.MOR(m.M(first=m.MName), m.MConstant), m.MQSTAR(rest=m.MTAG('first'))])
+    if name == 'or_backref_binop':
+        return m.MBinOp(left=m.MOR(m.M(left=m.MName), m.MConstant, m.MCall), right=m.MTAG('left'))
+    if name == 'or_backref_assign':
+        return m.MAssign(targets=[m.MOR(m.M(t=m.MName), m.MAttribute, m.MSubscript)], value=m.MTAG('t'))
+    if name == 'opt_backref_tuple':
+        return _seq(m, [m.MQOPT(first=m.MConstant), m.MQSTAR.NG(pre=...), m.MTAG('first'), m.MQSTAR(post=...)])
+    if name == 'probe_tags':
+        return m.MOR(m.MTAG('t'), m.MTAG('left'), m.MTAG('first'), m.MTAG('f'), m.MTAG('b'), m.MTAG('a'), m.MTAG('l'),
+                     m.MTAG('c'))
     if name.startswith('t:'):
         return getattr(ast, name[2:])
     if name == 'wild':
@@ -60,6 +145,13 @@ def build_pattern(name):
     if name == 'dict_all':
         return m.MDict(_all=[m.MQSTAR(kv=...)])
     raise KeyError(name)
+
+
+FIXTURES = ['[a, b, a]', 'a + a', 'a = a', 'f(a, b, c)', 'a < b < c', '[1, a]', '1 + a', 'b.c = b', '(1, b, 1)', '[a, a]',
+            'b = b', 'if a:\n    b\n    c', '[b, a, c, d]', 'g(b, a)', 'a * b', '{a, b, a}']
+NODE_CLASSES = dict(ABORT_PATTERNS, **REENTRANT_PATTERNS)
+NODE_CLASSES.update({'or_backref_list': (ast.List,), 'or_backref_binop': (ast.BinOp,), 'or_backref_assign': (ast.Assign,),
+                     'opt_backref_tuple': (ast.List, ast.Tuple, ast.Set)})
 
 
 def render(root, v, depth=0):
@@ -146,6 +238,26 @@ class MatchRun:
             for i in range(n_match):
                 parties.append({'kind': 'match', 'tree': rng.randrange(len(programs)), 'pat': rng.choice(PATTERNS),
                                 'node': rng.randrange(10 ** 6), 'on_ast': rng.random() < 0.2})
+            if rng.random() < 0.6:  # fault run: aborted / re-entrant matches, cancelled searches, leak-sensitive observers
+                for j in range(len(programs)):  # make sure there is something for the fault patterns to bite on
+                    if rng.random() < 0.7:
+                        fx = list(FIXTURES)
+                        rng.shuffle(fx)
+                        programs[j] = programs[j].rstrip('\n') + '\n' + '\n'.join(fx[:rng.choice([2, 4, 6])]) + '\n'
+                for i in range(rng.choice([1, 2, 3])):
+                    t = rng.randrange(len(programs))
+                    present = {n.__class__ for n in ast.walk(ast.parse(programs[t]))}
+                    pool = [k for k, cl in list(ABORT_PATTERNS.items()) * 2 + list(REENTRANT_PATTERNS.items())
+                            if present.intersection(cl)] or list(ABORT_PATTERNS)
+                    parties.append({'kind': 'fault', 'tree': t, 'pat': rng.choice(pool),
+                                    'node': rng.randrange(10 ** 6), 'k': rng.choice([1, 1, 1, 2, 3]),
+                                    'via': rng.choice(['match', 'match', 'search'])})
+                for i in range(rng.choice([2, 4, 6])):
+                    parties.append({'kind': 'match', 'tree': rng.randrange(len(programs)), 'pat': rng.choice(LEAK_SENSITIVE),
+                                    'node': rng.randrange(10 ** 6), 'on_ast': False})
+                for p in parties:
+                    if p['kind'] == 'search' and rng.random() < 0.3:
+                        p['close_after'] = rng.choice([0, 1, 2, 3])
             sched = None
         else:
             cfg = self.case_in['config']
@@ -155,16 +267,41 @@ class MatchRun:
         self.cfg, self.programs, self.parties = cfg, programs, parties
         schedule = []
 
-        def node_of(tree, k):
+        def node_of(tree, k, pat=None):
             nodes = [n for n in tree.walk(True)]
+            classes = NODE_CLASSES.get(pat)
+            if classes:
+                nodes = [n for n in nodes if isinstance(n.a, classes)] or nodes
             return nodes[k % len(nodes)]
+
+        def do_fault(tree, p):
+            """An aborted (callback raises) or re-entrant (callback matches) match / search.  Returns its outcome."""
+            n = node_of(tree, p['node'], p['pat'])
+            pat, calls = build_fault_pattern(p['pat'], p['k'])
+            out = []
+            try:
+                if p['via'] == 'search':
+                    for m in n.search(pat):
+                        out.append(render(tree, m))
+                else:
+                    out = render(tree, n.match(pat))
+            except Boom:
+                out = ('BOOM', out if p['via'] == 'search' else None)
+            return out, calls[0]
 
         def party_alone(p):
             tree = FST(programs[p['tree']], 'exec')
+            if p['kind'] == 'fault':
+                return do_fault(tree, p)[0]
             pat = build_pattern(p['pat'])
             if p['kind'] == 'search':
-                return [render(tree, m) for m in tree.search(pat, p['nested'], on=p['on'], back=p['back'])]
-            n = node_of(tree, p['node'])
+                out = []
+                for m in tree.search(pat, p['nested'], on=p['on'], back=p['back']):
+                    if len(out) == p.get('close_after'):
+                        break
+                    out.append(render(tree, m))
+                return out
+            n = node_of(tree, p['node'], p['pat'])
             return render(tree, pat.match(n.a) if p.get('on_ast') and hasattr(pat, 'match') else n.match(pat))
 
         bad = shared_state_clean()
@@ -180,7 +317,7 @@ class MatchRun:
             live = {}
             got = {i: [] for i, p in enumerate(parties) if p['kind'] == 'search'}
             done = set()
-            pending_matches = [i for i, p in enumerate(parties) if p['kind'] == 'match']
+            pending_matches = [i for i, p in enumerate(parties) if p['kind'] in ('match', 'fault')]
             step = 0
             while step < 200:
                 active = [i for i in got if i not in done] + pending_matches
@@ -203,15 +340,34 @@ class MatchRun:
                         if i not in live:
                             live[i] = trees[p['tree']].search(build_pattern(p['pat']), p['nested'], on=p['on'], back=p['back'])
                         try:
+                            if len(got[i]) == p.get('close_after'):  # fault: the consumer cancels the search here
+                                live[i].close()
+                                self.stats['fault_search_cancelled'] += 1
+                                raise StopIteration
                             m = next(live[i])
                             got[i].append(render(trees[p['tree']], m))
                         except StopIteration:
                             done.add(i)
+                    elif p['kind'] == 'fault':
+                        pending_matches.remove(i)
+                        r, ncalls = do_fault(trees[p['tree']], p)
+                        if isinstance(r, tuple) and r and r[0] == 'BOOM':
+                            self.stats['fault_match_aborted_by_callback'] += 1
+                        elif ncalls and p['pat'].startswith('reent'):
+                            self.stats['fault_reentrant_matches_in_callback'] += 1
+                        elif ncalls:
+                            self.stats['fault_party_callback_ran_without_abort'] += 1
+                        else:
+                            self.stats['fault_party_callback_not_reached'] += 1
+                        if refs[i][0] != 'ok' or refs[i][1] != r:
+                            self.viol = {'kind': 'match_result_depends_on_interleaving', 'step': step,
+                                         'detail': f'party {i} {p!r}: alone={refs[i]!r} interleaved={r!r}'[:1200]}
+                            break
                     else:
                         pending_matches.remove(i)
                         tree = trees[p['tree']]
                         pat = build_pattern(p['pat'])
-                        n = node_of(tree, p['node'])
+                        n = node_of(tree, p['node'], p['pat'])
                         r = render(tree, pat.match(n.a) if p.get('on_ast') and hasattr(pat, 'match') else n.match(pat))
                         self.stats['match_calls'] += 1
                         if refs[i][0] != 'ok' or refs[i][1] != r:
@@ -243,7 +399,7 @@ class MatchRun:
             # search == filtered walk on a quiescent tree
             if self.viol is None:
                 for i, p in enumerate(parties):
-                    if p['kind'] != 'search' or not p['nested'] or p['on'] != 'enter' or refs[i][0] != 'ok':
+                    if p['kind'] != 'search' or not p['nested'] or p['on'] != 'enter' or refs[i][0] != 'ok' or p.get('close_after') is not None:
                         continue
                     tree = FST(programs[p['tree']], 'exec')
                     pat = build_pattern(p['pat'])
